@@ -74,7 +74,8 @@ PROPS = {
     "C08": {
         "bin": "px_editor", "budget_ms": 30000, "wall_cap": {"quick": 600, "thorough": 2400},
         "rule": "every history of length <=2 (thorough <=3) over ~100 operation instances (every public editing operation with in-range and boundary arguments, selection set-up, current-layer / caret set-up steps, atomic groups incl. nesting) "
-                "on 6 start documents (1 layer; offset alpha layer; hidden + locked layers; a shrunk layer with hidden content; custom palette + second font + chars layer + SAUCE; a tall layer with lazily stored rows and the caret on its last row); per history: undo step by step down to the start comparing an observational "
+                "on 7 start documents (1 layer; offset alpha layer; hidden + locked layers; a shrunk layer with hidden content; custom palette + second font + chars layer + SAUCE; a tall layer with lazily stored rows and the caret on its last row; "
+                "an alpha locked current layer + 3 fonts + a SAUCE record whose size fields differ from the buffer), plus 576 explicit histories one step longer than the searched depth (optional clear_layer; an operation recorded as a layer snapshot; a row / column operation; an operation whose redo puts back cloned layers) whose undo / redo walks change the physical row storage between a redo and the next undo; per history: undo step by step down to the start comparing an observational "
                 "snapshot at every operation boundary, redo back up comparing again, undo/redo interleavings of length <=4 from the top, and 'new edit after undo discards redo' with every operation of the alphabet as the new edit (h1..hn-1, undo, hn). non-trivial = the history grew the undo stack",
         "level_text": "all edit histories up to the depth bound are executed on the real EditState and every undo / redo walk inside them is compared with snapshots recorded on the way up (differential oracle, no hand-written expected values)",
         "level_note": "an operation that returns Err or panics ends the history before it (the statement quantifies over operations that report success); selection, caret and dirty flags are not part of the document; the statement's random length-40 histories are not claimed",
